@@ -189,7 +189,7 @@ func (c *ctx) checkIter(v iterView, want []string) {
 			got = append(got, key)
 			exp := n - k
 			if l := it.Len(); l != exp {
-				if v.offByOne && l == exp+1 {
+				if v.offByOne && exp >= 0 && l == exp+1 {
 					c.findingf(classLenOffByOne, "%s (%T): Len()=%d after %d of %d items were taken with Next, want %d remaining", v.name(), it, l, k, n, exp)
 				} else {
 					c.failf("%s: Len()=%d after %d of %d items, want %d", v.name(), l, k, n, exp)
